@@ -1090,6 +1090,11 @@ def emit_law_thms(L):
             x = {"I%d" % k: "x"}
             conj.append("  is_derive (fun x => %s_S%d %s) I%d (%s_H%d%d %s)" % (n, j, _args(L, x), k, n, j, k, _args(L)))
     out.append(" /\\\n".join(conj) + ".")
-    out.append("Proof. intros %s %s H3. repeat split; first [ %s ]. Qed." % (ps, " ".join(IV), " | ".join("now apply %s" % x for x in names if "first_term" not in x)))
+    pf = [x for x in names if "first_term" not in x]
+    a = _args(L)
+    term = "(%s %s H3)" % (pf[-1], a)
+    for x in reversed(pf[:-1]):
+        term = "(conj (%s %s H3)\n  %s)" % (x, a, term)
+    out.append("Proof. intros %s %s H3. exact %s. Qed." % (ps, " ".join(IV), term))
     out.append("Print Assumptions %s_tables_correct." % n)
     return "\n".join(out) + "\n"
